@@ -130,7 +130,7 @@ func unpackTransportUnit(data []byte, unit *TransportUnit) (uint, error) {
 
 	dataLength := int(data[0])
 
-	if len(data) < 3 || dataLength+2 < len(data) {
+	if dataLength < 1 || len(data) < dataLength+2 {
 		return 0, io.ErrUnexpectedEOF
 	}
 
